@@ -1,6 +1,7 @@
 package sim
 
 import (
+	"fmt"
 	"go.sia.tech/core/consensus"
 	"go.sia.tech/core/types"
 	"math/big"
@@ -216,6 +217,39 @@ func (a *Adv) ContractProbes() int {
 			}
 		}
 		if probed {
+			break
+		}
+	}
+	// ---- a stored v1 contract that was finalised (revision number 2^64-1, the clearing revision signed on renewal) and is
+	// then "revised" to any earlier number by a fresh, honestly signed transaction
+	if a.v1Allowed() {
+		revisedHere := map[types.FileContractID]bool{}
+		for _, tx := range a.Honest.Transactions {
+			for _, r := range tx.FileContractRevisions {
+				revisedHere[r.ParentID] = true
+			}
+			for _, p := range tx.StorageProofs {
+				revisedHere[p.ParentID] = true
+			}
+		}
+		for _, e := range a.G.C.Store.SortedFC() {
+			lock, known := a.G.W.Locks[e.FileContract.UnlockHash]
+			if e.FileContract.RevisionNumber != types.MaxRevisionNumber || revisedHere[e.ID] || !known || lock.UC == nil || e.FileContract.WindowStart <= a.Child || !lock.Spendable(false, a.Child, MedianTimestamp(a.CS)) {
+				continue
+			}
+			for _, num := range []uint64{0, 1, types.MaxRevisionNumber - 1, types.MaxRevisionNumber} {
+				rev := e.FileContract
+				rev.ValidProofOutputs = append([]types.SiacoinOutput(nil), rev.ValidProofOutputs...)
+				rev.MissedProofOutputs = append([]types.SiacoinOutput(nil), rev.MissedProofOutputs...)
+				rev.RevisionNumber = num
+				txn := types.Transaction{FileContractRevisions: []types.FileContractRevision{{ParentID: e.ID, UnlockConditions: *lock.UC, FileContract: rev}}}
+				SignV1(a.CS, &txn, false)
+				blk := CloneBlock(a.Honest)
+				blk.Transactions = append(blk.Transactions, txn)
+				if a.emit(blk, fmt.Sprintf("v1-revision/finalised-contract-revised-to-number-%d", num), "reject", nil, nil) {
+					n++
+				}
+			}
 			break
 		}
 	}
